@@ -14,6 +14,15 @@ CHECKS = {
    note=COMMON_NOTE + "Modelled not verified: bytes::Buf cursor semantics, String::from_utf8 (= validUtf8, differential-tested), process stack size (nesting bound 32 is proved for the model; real stack use observed on a 256 KiB stack).",
    technique="Lean 4 proof (loop invariants via fun_induction, fuel-indexed mutual recursion) + differential correspondence with the real parser",
    ref="DESIGN.md §5 C07"),
+ "C01": dict(
+   text="Lean refinement theorem: from a fresh store every sequence of put/delete/get/merge (any max_file_size from 0 up, any subset of files a merge selects, any KeyDir iteration order) "
+        "returns exactly the results of the abstract map Key -> Option Val, keeps the index invariant (every entry addresses the complete record written for it) and never reads a bad location. "
+        "The theorems are about the same definitions the driver executes; the tie is differential execution of model and real store on seeded histories (values 0..70 KiB, rollover on every write, "
+        "cache/pool sizes 0.., all merge presets) plus a plain-map oracle.",
+   note=COMMON_NOTE + "Modelled not verified: files at record granularity (byte layout = Store/Codec.lean, compared through positions/lengths/sizes and trace hashes), mmap/LRU reader cache and reader pool "
+        "(sequentially unobservable; concurrency is C04), DashMap iteration order = the `order` parameter (observed from the real merge and quantified over in the theorem).",
+   technique="Lean 4 proof (invariant + refinement to an abstract map, induction over operations) + differential correspondence with the real store",
+   ref="DESIGN.md §5 C01"),
 }
 NOT_YET = "check under construction in this session; will be claimed once its machinery is committed"
 def main():
